@@ -3,6 +3,7 @@ use vmon::report::parse_args;
 
 mod engine;
 mod c03;
+mod c03p;
 mod c04;
 mod c24;
 mod c39;
